@@ -168,6 +168,21 @@ CLAIMED["C07"] = dict(
          "in the model; a tick landing inside one datagram's processing is a runtime interleaving the suite cannot exhibit (partial there). "
          "The SOCKS5 multiplexer shares the contract but is not driven here.",
 )
+CLAIMED["C16"] = dict(
+    text="Unbounded Lean theorems about a model that keeps the live objects (sessions holding a session guard, tunnels holding a TCP "
+         "socket guard while connecting or relaying, the UDP sockets of every multiplexer - the C07 model embedded) and, separately, "
+         "the five metric cells, touched only where the code creates or drops a guard or calls update_metrics: after every history "
+         "of session opens/closes, connects (established, refused, hanging until the timeout), client end / reset, origin close, data, "
+         "UDP datagrams/replies/expiry and clock advances the gauges equal the object counts and are never negative; with all clients "
+         "gone sessions and UDP sockets read zero at once and TCP sockets after the timeouts; refused and timed-out connects are "
+         "balanced; byte counters only grow and grow by exactly the bytes relayed on relaying tunnels; METRICS.md (re-read every run) "
+         "documents exactly these five series, types and label names. Tied to the code by ~140 (1200) histories per run through real "
+         "HTTP/1.1 and HTTP/2 tunnel sessions with the real forwarder against loopback TCP/UDP servers, reading Metrics::collect "
+         "after every event and the real metrics listener (GET /metrics, /health-check, another path) over TCP.",
+    note="Trusted: Lean kernel, harness/door, prometheus text encoding, loopback socket behaviour. The byte-direction-to-series mapping "
+         "is calibrated per run, not fixed (code and METRICS.md disagree on it, see DESIGN.md). TCP idle expiry only with generous "
+         "advances (C14 covers its timing). HTTP/3, SOCKS5, ICMP and the non-tunnel channels are not driven.",
+)
 CLAIMED["C19"] = dict(
     text="Unbounded Lean theorems about the shutdown model, for every operation history: a participant registered before a submission "
          "gets Ok from its next (or pending) wait whatever else is interleaved (repeated submits, other participants, completion polls); "
@@ -204,4 +219,4 @@ CLAIMED["C20"] = dict(
     technique="Lean 4 non-interference theorems for the scrubbers + kernel-decided generated log-site table + dynamic canary search",
 )
 NOT_CLAIMED = {p: "not yet built in this framework (planned, see DESIGN.md section 5)" for p in
-               ["C16", "C17"]}
+               ["C17"]}
